@@ -11,6 +11,14 @@
 // harness checks the properties themselves on the real directory and prints "ORACLE <kind> …" lines:
 //   C14: dup-id, torn, not-in-cur, order, not-suffix, over-limit, backup-bound
 //   C15: time-merge, time-split, suffix, grid (dst-drift in a zone whose offset changes during the case)
+// The SPELLING of the sink's path is an explicit parameter of every (re)start (`sp=<k>` at the end of the start op):
+//   0 canon  /tmp/h3rot_X/log.log (absolute, canonical)      1 rel    h3rot_X/log.log           (cwd = /tmp)
+//   2 dot    ./h3rot_X/log.log                               3 updown h3rot_X/../h3rot_X/log.log
+//   4 link   /tmp/h3rot_X_l/log.log (symlink to the dir)     5 trail  /tmp/h3rot_X/./log.log
+//   6 bare   log.log (cwd = the scratch directory)
+// chosen independently for each restart of the same directory. The model and the oracles do not look at it: the same
+// files must be recovered and the same sequence continued whatever the spelling (std::filesystem's path resolution
+// itself is trusted; the *invariance* of the sink's behaviour under the spelling is what is tested).
 // Every scratch directory is created under /tmp by the run and removed by it.
 #include <algorithm>
 #include <cerrno>
@@ -88,7 +96,11 @@ struct StartCfg
   uint32_t iv{0};
   int hh{0}, mm{0};
   uint64_t ts{0};
+  int spell{0}; // how the path handed to the constructor is spelled (see the head of this file); not part of the model
 };
+
+static char const* const SPELL_NAMES[] = {"canon", "rel", "dot", "updown", "link", "trail", "bare"};
+static int const N_SPELL = 7;
 
 struct Rec
 {
@@ -101,7 +113,10 @@ struct Case
   std::string id, kind, tz{"UTC"};
   char scheme{'I'};
   bool gmt{true};
-  std::string dir;
+  std::string dir;          // canonical absolute path of the scratch directory
+  std::string parent, base; // dir = parent + "/" + base
+  std::string link;         // symlink next to the scratch directory pointing at it (created on first use)
+  bool link_made{false};
   std::unique_ptr<RotatingFileSink> sink;
   StartCfg cfg;
   std::ostringstream out;
@@ -194,12 +209,43 @@ struct Case
     char tmpl[] = "/tmp/h3rot_XXXXXX";
     char* d = mkdtemp(tmpl);
     if (!d) { perror("mkdtemp"); exit(2); }
-    dir = d;
+    char* rp = realpath(d, nullptr);
+    if (!rp) { perror("realpath"); exit(2); }
+    dir = rp;
+    free(rp);
+    auto const slash = dir.rfind('/');
+    parent = slash == 0 ? std::string{"/"} : dir.substr(0, slash);
+    base = dir.substr(slash + 1);
+    link = dir + "_l";
+    link_made = false;
+  }
+  // the path handed to the sink's constructor, and the working directory it is relative to
+  std::string spelled_path(int sp)
+  {
+    if (chdir((sp == 6 ? dir : parent).c_str()) != 0) { perror("chdir"); exit(2); }
+    switch (sp)
+    {
+    case 1: return base + "/log.log";
+    case 2: return "./" + base + "/log.log";
+    case 3: return base + "/../" + base + "/log.log";
+    case 4:
+      if (!link_made)
+      {
+        if (symlink(dir.c_str(), link.c_str()) != 0) { perror("symlink"); exit(2); }
+        link_made = true;
+      }
+      return link + "/log.log";
+    case 5: return dir + "/./log.log";
+    case 6: return "log.log";
+    default: return dir + "/log.log";
+    }
   }
   void remove_dir()
   {
     sink.reset();
     if (dir.empty()) return;
+    if (chdir(parent.c_str()) != 0) { perror("chdir"); exit(2); }
+    if (link_made) { unlink(link.c_str()); link_made = false; }
     if (DIR* dp = opendir(dir.c_str()))
     {
       while (dirent* e = readdir(dp))
@@ -313,7 +359,7 @@ struct Case
     ++g_stats["oracle_" + kind];
     out << "ORACLE " << kind << " case=" << id << " op=" << opno << " scheme=" << scheme << " nonmono=" << (nonmono ? 1 : 0)
         << " arestarts=" << append_restarts << " unrecovered=" << (unrecovered ? 1 : 0) << " dst=" << (off_min != off_max ? 1 : 0)
-        << " overstart=" << (overstart ? 1 : 0) << " " << detail << "\n";
+        << " overstart=" << (overstart ? 1 : 0) << " spell=" << SPELL_NAMES[cfg.spell] << " " << detail << "\n";
   }
 
   // ordering of the family files as the naming scheme reads them, oldest first
@@ -502,7 +548,7 @@ struct Case
       else if (c.freq == 'H' || c.freq == 'M') q.set_rotation_frequency_and_interval(c.freq, c.iv);
       auto const st = std::chrono::system_clock::time_point{
         std::chrono::duration_cast<std::chrono::system_clock::duration>(std::chrono::nanoseconds{static_cast<int64_t>(c.ts)})};
-      sink = std::make_unique<RotatingFileSink>(fs::path{dir + "/log.log"}, q, FileEventNotifier{}, st);
+      sink = std::make_unique<RotatingFileSink>(fs::path{spelled_path(c.spell)}, q, FileEventNotifier{}, st);
     }
     catch (std::exception const& e)
     {
@@ -529,9 +575,11 @@ struct Case
     cur_open_ts = c.ts;
     ++g_stats[std::string("start_mode_") + c.mode];
     ++g_stats[std::string("start_freq_") + c.freq];
+    ++g_stats[std::string("spell_") + SPELL_NAMES[c.spell]];
+    if (run > 1 && c.mode == 'a' && c.spell != 0 && count_family(before) > 0) ++g_stats["append_restart_over_rotated_files_noncanonical_spelling"];
     std::ostringstream op;
     op << "start " << c.limit << " " << c.maxb << " " << (c.ow ? 1 : 0) << " " << c.mode << " " << (c.clean ? 1 : 0) << " " << c.freq
-       << " " << c.iv << " " << c.hh << " " << c.mm << " " << c.ts << " " << offset_at(c.ts);
+       << " " << c.iv << " " << c.hh << " " << c.mm << " " << c.ts << " " << offset_at(c.ts) << " sp=" << c.spell;
     auto v = list_dir();
     stale.clear();
     if (c.mode == 'w')
@@ -855,9 +903,17 @@ static uint64_t near_transition(Rng& rng)
   return 0;
 }
 
-static void gen_case(Rng& rng, std::string const& id, unsigned nops, bool c15)
+// the spelling of the path for one (re)start: its own PRNG stream, so that the operations of a case do not depend on it
+static int gen_spell(Rng& srng)
+{
+  if (srng.chance(22)) return 0;
+  return 1 + static_cast<int>(srng.below(N_SPELL - 1));
+}
+
+static void gen_case(Rng& rng, std::string const& id, unsigned nops, bool c15, uint64_t spell_seed)
 {
   Case c;
+  Rng srng(spell_seed);
   std::string kind;
   char scheme;
   std::string tz = "UTC";
@@ -892,6 +948,7 @@ static void gen_case(Rng& rng, std::string const& id, unsigned nops, bool c15)
     if (t) cfg.ts = t + rng.below(NS);
   }
   if (rng.chance(50)) { cfg.mode = rng.chance(50) ? 'a' : 'w'; }
+  cfg.spell = gen_spell(srng);
   c.do_start(cfg);
   uint64_t last = cfg.ts;
   for (unsigned i = 0; i < nops && c.sink; ++i)
@@ -916,6 +973,7 @@ static void gen_case(Rng& rng, std::string const& id, unsigned nops, bool c15)
       }
       if (nonmono && rng.chance(30)) st = last > DAY ? last - rng.below(DAY) : last;
       n.ts = st;
+      n.spell = gen_spell(srng); // independently of the spelling of the earlier starts
       cfg = n;
       c.do_start(cfg);
       last = std::max(last, st);
@@ -965,7 +1023,8 @@ int main(int argc, char** argv)
     Rng rng(seed * 2 + (c15 ? 1 : 0));
     gen_cfg_probes("s" + std::to_string(seed) + "cfg");
     for (unsigned i = 0; i < cases; ++i)
-      gen_case(rng, "s" + std::to_string(seed) + (c15 ? "t" : "z") + std::to_string(i), nops, c15);
+      gen_case(rng, "s" + std::to_string(seed) + (c15 ? "t" : "z") + std::to_string(i), nops, c15,
+               (seed * 1000003ull + i) * 2 + (c15 ? 1 : 0) + 0x5350454cull);
     print_tail();
     return g_oracle_hits ? 3 : 0;
   }
@@ -996,6 +1055,14 @@ int main(int argc, char** argv)
         s.limit = std::stoull(w[1]); s.maxb = std::stoull(w[2]); s.ow = w[3] == "1"; s.mode = w[4][0]; s.clean = w[5] == "1";
         s.freq = w[6][0]; s.iv = static_cast<uint32_t>(std::stoul(w[7])); s.hh = std::stoi(w[8]); s.mm = std::stoi(w[9]);
         s.ts = std::stoull(w[10]);
+        // w[11] = zone offset (recomputed; may be missing in hand-written files), then sp=<spelling> (absent in older
+        // replay files: canonical)
+        for (size_t k = 11; k < w.size(); ++k)
+          if (w[k].compare(0, 3, "sp=") == 0)
+          {
+            int const v = std::atoi(w[k].c_str() + 3);
+            s.spell = (v >= 0 && v < N_SPELL) ? v : 0;
+          }
         c->do_start(s);
       }
       else if (w[0] == "w" && w.size() >= 4)
